@@ -183,7 +183,72 @@ def oracle_batch(inp):
     return out
 
 
-ORACLES = {'case': oracle_case, 'batch': oracle_batch}
+def oracle_multiray(inp):
+    """the single-triangle functions called with SEVERAL rays return, row by row, what they return for each ray alone
+    (both APIs); the glue outputs of the batched function list exactly the hitting pairs"""
+    lr, nr = api()
+    out = []
+    tri = np.array(inp['tri'], float); rays = np.array(inp['rays'], float)
+    raw = np.cross(tri[0] - tri[1], tri[2] - tri[1]); nhat = raw / np.linalg.norm(raw)
+    good = [abs(float(nhat @ r[1])) > 0.05 for r in rays]
+    # PyTorch
+    t32 = torch.tensor(tri, dtype=torch.float32); r32 = torch.tensor(rays, dtype=torch.float32)
+    nm, dm = lr.intersect_w_surface(r32, t32)
+    ok_shape = tuple(nm.shape) == (len(rays), 2, 3) and dm.numel() == len(rays)
+    out.append(('torch_multiray_shapes', ok_shape, [len(rays), 2, 3], [list(nm.shape), list(dm.shape)]))
+    if ok_shape:
+        worst = 0.0
+        for j in range(len(rays)):
+            if not good[j]: continue
+            n1, d1 = lr.intersect_w_surface(r32[j:j + 1], t32)
+            sc = max(1.0, float(n1.abs().max()))
+            worst = max(worst, float((nm[j] - n1[0]).abs().max()) / sc, abs(float(dm.reshape(-1)[j]) - float(d1.reshape(-1)[0])) / sc)
+        out.append(('torch_multiray_equals_single', worst <= 1e-5, '<= 1e-5', worst))
+    # NumPy
+    try:
+        nn, dn = nr.intersect_w_surface(rays, tri)
+        dn = np.asarray(dn, float).reshape(-1)
+        ok_shape = tuple(np.shape(nn)) == (len(rays), 2, 3) and dn.shape == (len(rays),)
+        out.append(('numpy_multiray_shapes', ok_shape, [len(rays), 2, 3], [list(np.shape(nn)), list(dn.shape)]))
+        if ok_shape:
+            worst = 0.0
+            for j in range(len(rays)):
+                if not good[j]: continue
+                n1, d1 = nr.intersect_w_surface(rays[j], tri)
+                sc = max(1.0, float(np.abs(n1).max()))
+                worst = max(worst, float(np.abs(nn[j] - n1).max()) / sc, abs(float(dn[j]) - float(np.asarray(d1).reshape(-1)[0])) / sc)
+            out.append(('numpy_multiray_equals_single', worst <= 1e-9, '<= 1e-9', worst))
+    except Exception as e:
+        out.append(('numpy_multiray_no_exception', False, 'one row per ray', repr(e)))
+    try:
+        res = nr.intersect_w_triangle(rays, tri)
+        out.append(('numpy_triangle_accepts_documented_ray_batch', True, True, True))
+    except Exception as e:
+        out.append(('numpy_triangle_accepts_documented_ray_batch', False, 'a result for the documented (n x 2 x 3) ray list', repr(e)[:200]))
+    # glue of the batched function: one entry per hitting pair, in row-major (triangle, ray) order, carrying that pair's data
+    tris = torch.stack([t32, t32 + torch.tensor([0.3, -0.2, 0.4])])
+    nb, dist_l, ray_l, nrm_l, cb = lr.intersect_w_triangle_batch(r32, tris)
+    okg = True; detail = None
+    groups = [i for i in range(tris.shape[0]) if int(cb[i].sum()) > 0]
+    if not (len(dist_l) == len(ray_l) == len(nrm_l) == len(groups)):
+        okg = False; detail = {'groups_with_hits': len(groups), 'lists': [len(dist_l), len(ray_l), len(nrm_l)]}
+    else:
+        for gi, i in enumerate(groups):
+            idx = [j for j in range(len(rays)) if bool(cb[i, j])]
+            if list(ray_l[gi].shape) != [len(idx), 2, 3] or list(nrm_l[gi].shape) != [len(idx), 2, 3] or dist_l[gi].numel() != len(idx):
+                okg = False; detail = {'triangle': i, 'expected_hits': len(idx), 'shapes': [list(ray_l[gi].shape), list(nrm_l[gi].shape), list(dist_l[gi].shape)]}; break
+            for a, j in enumerate(idx):
+                n1, d1, _, _, _ = lr.intersect_w_triangle(r32[j:j + 1], tris[i])
+                sc = max(1.0, float(n1.abs().max()))
+                e = max(float((ray_l[gi][a] - r32[j]).abs().max()), float((nrm_l[gi][a] - n1[0]).abs().max()) / sc, abs(float(dist_l[gi].reshape(-1)[a]) - float(d1.reshape(-1)[0])) / sc)
+                if e > 1e-5:
+                    okg = False; detail = {'triangle': i, 'ray': j, 'max_deviation': e}; break
+            if not okg: break
+    out.append(('batch_lists_carry_the_hitting_pairs', okg, 'per triangle with hits: the rays that hit it, their hit normals and distances', detail))
+    return out
+
+
+ORACLES = {'case': oracle_case, 'batch': oracle_batch, 'multiray': oracle_multiray}
 
 
 def apply_oracle(ctx, name, inp):
@@ -193,6 +258,7 @@ def apply_oracle(ctx, name, inp):
         res = [('no_exception', False, 'a result', repr(e))]
     bad = 0
     fn = {'torch': 'odak.learn.raytracing.intersect_w_triangle', 'numpy': 'odak.raytracing.intersect_w_surface'}.get(inp.get('api'), 'odak.learn.raytracing.intersect_w_triangle_batch')
+    if name == 'multiray': fn = 'intersect_w_surface / intersect_w_triangle with several rays'
     for clause, ok, exp, obs in res:
         if not ok:
             bad += 1
@@ -242,7 +308,8 @@ def run(ctx):
     ctx.trusted += ['tracer/shim.py + tracer/recipes/c10.py (translator; validated each run by the numeric self-check)',
                     'torch/numpy kernels (mm, bmm, cross, sqrt): modelled as exact real arithmetic; float rounding not modelled',
                     'glue of intersect_w_triangle(_batch) (masking, repeat, split) is exercised by the direct oracles only',
-                    'NumPy is_it_on_triangle (python control flow on values) is covered by theorem C10_same_side_iff + oracles, not traced']
+                    'NumPy is_it_on_triangle (python control flow on values) is covered by theorem C10_same_side_iff + oracles, not traced',
+                    'intersect_w_circle and planar_mesh.mirror are not covered; the parallel-ray clause is checked by oracles on exactly parallel rays only (nan_to_num is the identity on finite reals in the tracer)']
     ctx.gate()
     ctx.ensure_theories(['theories/C10/Props.vo'])
     ctx.theorems('OdakV.C10.Props', PROPS)
@@ -257,7 +324,7 @@ def run(ctx):
     ncase = 1500 if ctx.thorough else 240
     cases = gen_cases(ctx, ncase)
     if g is not None:
-        ctx.compile_tie('GenC10', g.text(), [['C10_TieA', 'C10_TieB', 'C10_TieC', 'C10_TieD', 'C10_TieE'], ['C10_TieProps']])
+        ctx.compile_tie('GenC10', g.text(), [['C10_TieA', 'C10_TieB', 'C10_TieC', 'C10_TieD', 'C10_TieE', 'C10_TieF', 'C10_TieG0', 'C10_TieG1'], ['C10_TieProps', 'C10_TiePropsB']])
         self_check(ctx, g, cases[:120])
         ctx.sample({'traced_definition': 't_normal_0', 'coq': __import__('tracer.shim').shim.coq(g.by_name['t_normal_0'][1])[:400]})
     # direct oracles
@@ -273,6 +340,8 @@ def run(ctx):
         inp = {'tris': [c['tri'] for c in grp[:3]], 'rays': [[c['o'], c['d']] for c in grp]}
         apply_oracle(ctx, 'batch', inp)
         ctx.case('batch/3x%d' % len(grp), ('b', k))
+        apply_oracle(ctx, 'multiray', {'tri': grp[0]['tri'], 'rays': [[c['o'], c['d']] for c in grp]})
+        ctx.case('multiray/%d' % len(grp), ('m', k))
 
 
 def search(ctx):
